@@ -173,7 +173,7 @@ func cmdCheck(id, tier string, writeBaseline bool) int {
 			fmt.Fprintf(os.Stderr, "govc: package %s not found\n", pr.Path)
 			return 2
 		}
-		specs, err := LoadSpecs(prog.Dir+"/"+relDir(pr.Module, pr.Path), pr.Path, pp.Name)
+		specs, err := LoadSpecsFor(prog, pr.Module, pr.Path)
 		if err != nil {
 			fmt.Fprintln(os.Stderr, "govc:", err)
 			return 2
@@ -182,7 +182,7 @@ func cmdCheck(id, tier string, writeBaseline bool) int {
 		// functions whose contract names this property: all their verification conditions
 		var fnames []string
 		for n, fs := range specs.Funcs {
-			if hasProp(fs.Props, id) {
+			if hasProp(fs.Props, id) && strings.HasPrefix(n, pp.Name+".") {
 				fnames = append(fnames, n)
 			}
 		}
@@ -261,14 +261,31 @@ func cmdCheck(id, tier string, writeBaseline bool) int {
 	// Obligations of the inventory that came back undecided (time-out under load) get a
 	// second, unhurried attempt before anything is reported.
 	if !writeBaseline {
+		var retry []int
 		for i := range all {
 			r := &all[i]
 			if base[r.Name] && r.Status == "unknown" && r.Query != "" {
-				rr := decide(r.Name, r.Query, 90, false)
-				if rr.Status == "proved" {
-					r.Status, r.Solver, r.Secs, r.Detail = "proved", rr.Solver+" (second attempt)", r.Secs+rr.Secs, ""
-				}
+				retry = append(retry, i)
 			}
+		}
+		// many undecided obligations at once mean the code changed, not that the machine was busy
+		if len(retry) <= 8 {
+			var rwg sync.WaitGroup
+			rsem := make(chan struct{}, 3)
+			for _, i := range retry {
+				rwg.Add(1)
+				go func(i int) {
+					defer rwg.Done()
+					rsem <- struct{}{}
+					defer func() { <-rsem }()
+					r := &all[i]
+					rr := decide(r.Name, r.Query, 90, false)
+					if rr.Status == "proved" {
+						r.Status, r.Solver, r.Secs, r.Detail = "proved", rr.Solver+" (second attempt)", r.Secs+rr.Secs, ""
+					}
+				}(i)
+			}
+			rwg.Wait()
 		}
 	}
 	known := loadKnown()
@@ -583,7 +600,7 @@ func sweepFuncs(c *checkCtx, refs []pkgRef, writeBaseline bool, kinds map[string
 		specs := c.specs[pr.Path]
 		if specs == nil {
 			var err error
-			specs, err = LoadSpecs(prog.Dir+"/"+relDir(pr.Module, pr.Path), pr.Path, pp.Name)
+			specs, err = LoadSpecsFor(prog, pr.Module, pr.Path)
 			if err != nil {
 				fmt.Fprintln(os.Stderr, "govc:", err)
 				os.Exit(2)
